@@ -362,14 +362,17 @@ where
         let request_hash = response.request_type().hash();
 
         // check whether we are (still) waiting on response to this request
-        let Some(_) = self.outstanding_requests.remove(&request_hash) else {
+        // NOTE: the request is only consumed once the response has been validated,
+        // otherwise an invalid response would cancel the request (and its retry)
+        if !self.outstanding_requests.contains_key(&request_hash) {
             warn!("received repair response for unknown request {response:?}");
             return;
-        };
+        }
 
         match response {
             RepairResponse::Nack(req_type) => {
                 debug!("received NACK for repair request {req_type:?}, retrying immediately");
+                self.outstanding_requests.remove(&request_hash);
                 if let Err(err) = self.send_request(req_type).await {
                     warn!("retrying NACKed repair request failed: {err}");
                 }
@@ -390,6 +393,7 @@ where
                     warn!("repair response (LastSliceRoot) with invalid proof");
                     return;
                 }
+                self.outstanding_requests.remove(&request_hash);
 
                 // store slice Merkle root
                 self.slice_roots
@@ -416,6 +420,7 @@ where
                     warn!("repair response (SliceRoot) with invalid proof");
                     return;
                 }
+                self.outstanding_requests.remove(&request_hash);
 
                 // store slice Merkle root
                 self.slice_roots.insert((block_id.clone(), slice), root);
@@ -457,6 +462,7 @@ where
                     warn!("repair response (Shred) with invalid Merkle proof or signature");
                     return;
                 };
+                self.outstanding_requests.remove(&request_hash);
 
                 // store shred
                 let res = self
